@@ -21,10 +21,12 @@ import (
 	appsv1 "k8s.io/api/apps/v1"
 	corev1 "k8s.io/api/core/v1"
 	netv1 "k8s.io/api/networking/v1"
+	k8serrors "k8s.io/apimachinery/pkg/api/errors"
 	"k8s.io/apimachinery/pkg/api/resource"
 	metav1 "k8s.io/apimachinery/pkg/apis/meta/v1"
 	"k8s.io/apimachinery/pkg/labels"
 	"k8s.io/apimachinery/pkg/runtime"
+	"k8s.io/apimachinery/pkg/runtime/schema"
 	kfake "k8s.io/client-go/kubernetes/fake"
 	ktesting "k8s.io/client-go/testing"
 	"pgregory.net/rapid"
@@ -376,10 +378,12 @@ func TestVerif_C11(t *testing.T) {
 		rounds := 2
 		faultRound := -1
 		var faultVerb, faultRes string
+		faultConflict := false
 		if rapid.IntRange(0, 2).Draw(t, "faultDuringUpdate") == 0 {
 			rounds, faultRound = 3, rapid.SampledFrom([]int{1, 1, 0}).Draw(t, "faultRound")
 			faultVerb = rapid.SampledFrom([]string{"update", "create", "delete-collection"}).Draw(t, "faultVerb")
 			faultRes = rapid.SampledFrom([]string{"deployments", "deployments", "services", "ingresses", "networkpolicies"}).Draw(t, "faultResource")
+			faultConflict = faultVerb == "update" && rapid.Bool().Draw(t, "faultIsConflict")
 		}
 		for round := 0; round < rounds; round++ {
 			kc.ClearActions()
@@ -395,6 +399,10 @@ func TestVerif_C11(t *testing.T) {
 						return false, nil, nil
 					}
 					armed, fired = false, true
+					if faultConflict {
+						// what the API server answers when the object changed since it was read
+						return true, nil, k8serrors.NewConflict(schema.GroupResource{Resource: faultRes}, "object", fmt.Errorf("verif: the object has been modified"))
+					}
 					return true, nil, fmt.Errorf("verif: injected API error on %s %s", faultVerb, faultRes)
 				})
 				defer func() { armed = false }()
